@@ -13,13 +13,13 @@ META = dict(
     technique="TLA+ transcription of the two eol converters and the seven (reader, writer) settings, model-checked by "
               "TLC over all contents up to the tier's length; TLC case table replayed through the real filter stacks "
               "(and fresh checkouts under a rules file); recorded bytes judged by the same TLA+ laws",
-    level_text="Exhaustive over {CR, LF, NUL, a}* up to length 5 (quick) / 7 (thorough) for all seven settings: TLC "
+    level_text="Exhaustive over {CR, LF, NUL, a}* up to length 6 (quick) / 7 (thorough) for all seven settings: TLC "
                "proves on the transcription that the round-trip law fails exactly on the loss class (CR directly "
                "before CRLF, CRLF repository form, LF working form) and holds everywhere else, every case is executed "
                "on the real filter stack, and TLC evaluates the laws on the recorded bytes. The converters are "
                "context-free rewrites with a one-byte look-behind, so short strings exhaust their behaviours.",
     level_note="Other bytes behave like 'a'. The tree-level clause is explored on all canonical / binary contents up "
-               "to length 3 (quick) / 5 (thorough), in 2a branches with a WorkingTree6 checkout. Platform native "
+               "to length 4 (quick) / 5 (thorough), in 2a branches with a WorkingTree6 checkout. Platform native "
                "output is read from sys.platform. Trusted: TLC, the JSON bridge.",
 )
 
@@ -150,9 +150,9 @@ def run(ctx):
     native = '"crlf"' if sys.platform == "win32" else '"lf"'
     global _NATIVE
     _NATIVE = native          # inherited by the forked replay workers
-    consts = {"MaxLen": 5 if ctx.quick else 7, "Native": native}
+    consts = {"MaxLen": 6 if ctx.quick else 7, "Native": native}
     small = {"MaxLen": 3, "Native": native}
-    tree_len = 3 if ctx.quick else 5
+    tree_len = 4 if ctx.quick else 5
     # the rules file every tree of this process (and of the forked workers) resolves `eol` from
     os.makedirs(bedding.config_dir(), exist_ok=True)
     with open(rules.rules_path(), "w") as f:
@@ -181,7 +181,7 @@ def run(ctx):
     for k in cases:
         tree = len(k["c"]["s"]) <= tree_len and (k["canon"] or k["binary"])
         items.append((k, tree))
-    core.fork_map(ctx, _replay, items, nproc=4 if ctx.quick else 16, chunks_per_proc=1)
+    core.fork_map(ctx, _replay, items, nproc=8 if ctx.quick else 16, chunks_per_proc=1)
     ctx.sample({"eol": "crlf", "content": ["a", "LF"], "real": _filter_level({"st": "crlf", "s": ["a", "LF"]})})
     ctx.rule("every eol setting x every content over {CR, LF, NUL, a} of length <= %d enumerated by TLC, pushed through "
              "the real filter stack in two chunks; every canonical or binary content of length <= %d additionally "
